@@ -345,7 +345,21 @@ def run(ctx):
         path, line = pm.path(LAYERS_MOD), node.lineno
         extra = " (observed through %s)" % cls if cls != "ConvContract" else ""
         ctx.add(Finding("C09", "C09.TAINT." + kind, q, "%s%s (%d of the swept configurations fail)" % (what, extra, len(items)), path, line, cfg, kind + (":fast" if fast else "")))
-    ev.instances("C09.TAINT.obligations", ev.obligations, floor=15 if ctx.tier == "quick" else 17)
+    # (c') what train hands back is a model of THIS run (the one it was given or one its own steps produced): a model kept
+    # in a stopping condition by an earlier run -- e.g. a non-equivariant baseline trained first with the same condition
+    # object -- must never come back.  Decided by the semantic train-loop check of C19 (stubbed collaborators).
+    from .c19 import train_loop_worker
+
+    H9 = [(5, 9), (4, 8), (4, 9), (3, 7), (3, 7), (3, 8), (2, 8), (2, 9), (2, 9), (2, 9), (2, 9), (2, 9)]
+    tl = [(ctx.repo, "TrainLoss", (1, 0), H9, "reused"), (ctx.repo, "ValLoss", (1, 0), H9, "reused"), (ctx.repo, "TrainLoss", (1, 0), H9), (ctx.repo, "EpochStop", 2, H9)]
+    n_origin = 0
+    for job, r in ctx.pairs(train_loop_worker, tl):
+        n_origin += 1
+        ev.obligation("train-model-origin", not r["problems"], (job[1], str(job[2]), len(job) > 4))
+        for kind, what, cfgd in r["problems"][:1]:
+            ctx.add(Finding("C09", "C09.TRAIN.model-origin", "train", what, pm.path(TRAIN_MOD), pm.func(TRAIN_MOD, "train").lineno, cfgd, "model-origin:" + job[1]))
+    ev.instances("C09.TRAIN.loop_runs", n_origin, floor=4)
+    ev.instances("C09.TAINT.obligations", ev.obligations, floor=19 if ctx.tier == "quick" else 21)
     # (d) the structure of the model after a training step: dict fields come back with sorted keys
     U1 = ([((1, 0), 2), ((0, 0), 2)], [((1, 1), 2), ((1, 0), 2), ((0, 0), 2)])  # equal channel counts, unsorted orders
     U2 = ([((1, 0), 1), ((0, 1), 2)], [((1, 1), 1), ((0, 0), 2)])
